@@ -459,7 +459,9 @@ class C02(C01):
         table = python_names(dict(Mitochondria.SAFE_FUNCTIONS))
         fnames = sorted(k for k, v in table.items() if callable(v))
         pool = ["0", "1", "-2", "2.5", "True", "''", "'ab'", "b'a'", "[]", "[1, 2]", "['ab', 'cd']", "(1, 2)", "[[1], [2]]",
-                "[b'a']", "[1.5, 2.5]", "None"]
+                "[b'a']", "[1.5, 2.5]", "None",
+                # numbers on the boundaries the numeric builtins care about
+                "5", "6", "-1", "-3", "10", "51", "99", "100", "-750", "0.5", "-0.5", "1.5", "2.675", "1e308", "-0.0", "10 ** 20"]
         kws = ["start=''", "start='x'", "start=[]", "start=1.5", "key=abs", "default=0", "ndigits=1", "base=2", "reverse=True"]
         exprs = []
         for f in fnames:
@@ -470,7 +472,7 @@ class C02(C01):
                 for kw in kws:
                     exprs.append(f"{f}({a1}, {kw})")
         if self.tier == "quick":
-            exprs = exprs[::3] + [e for e in exprs if e.startswith(("sum(", "max(", "min(", "round(", "int(", "sorted("))]
+            exprs = exprs[::7] + [e for e in exprs if e.startswith(("sum(", "round(", "int(", "pow(", "gcd(", "log("))]
         n_t = 0
         eng = Mitochondria(silent=True)
         for e in exprs:
